@@ -107,6 +107,9 @@ pub struct Sched {
     pub hold: usize,
     /// pending "slow observer" clock advance, applied right after the next taken event
     pub slow_take: Option<i128>,
+    /// a slow observer of the other kind: after the next event it takes it does not poll again for this many steps
+    /// (the machine is suspended inside that emission; requests made meanwhile queue up)
+    pub hold_after_take: Option<(usize, usize)>,
 }
 
 impl Sched {
@@ -115,7 +118,7 @@ impl Sched {
         lock(&w).eager = false;
         let mut m = Machine::build(&w, false);
         let h = m.ctl.take();
-        Sched { w, m, handles: vec![h], reqs: vec![], info: SchedInfo::default(), hold: 0, slow_take: None }
+        Sched { w, m, handles: vec![h], reqs: vec![], info: SchedInfo::default(), hold: 0, slow_take: None, hold_after_take: None }
     }
 
     fn in_reboot_wait(&self) -> bool {
@@ -135,6 +138,14 @@ impl Sched {
                 let took = self.m.poll_once().is_some();
                 progressed = true;
                 if took {
+                    if let Some((skip, n)) = self.hold_after_take.take() {
+                        if skip == 0 {
+                            self.hold = n;
+                            self.info.steps.push(format!("observer sits on the event just taken for {n} steps"));
+                        } else {
+                            self.hold_after_take = Some((skip - 1, n));
+                        }
+                    }
                     if let Some(adv) = self.slow_take.take() {
                         let mut g = lock(&self.w);
                         g.mono_ns += adv;
@@ -274,6 +285,11 @@ impl Sched {
                 // the state machine is then suspended inside that emission while the clock advances
                 if t.flag() {
                     self.slow_take = Some(*t.pick(&[1_000_000_000i128, 40_000_000_000, 3_600_000_000_000]));
+                }
+                // ... or the hold only begins once the observer has taken its next event (whenever that is)
+                if t.chance(1, 3) {
+                    self.hold_after_take = Some((t.choose(8), self.hold));
+                    self.hold = 0;
                 }
             }
             6 => {
